@@ -64,8 +64,12 @@ def cases(tier, seed):
             phases.append(dict(mask=m2, loky_max=e2))
             if rng2.random() < 0.5:
                 phases.append(dict(mask=m2, loky_max=rng2.choice([None, 2, 64])))
+        overlap = None
+        if i % 5 == 3:
+            # inside one parallel_config(backend=...) block: a generator call still running with n1 workers, then a call with n2 < n1
+            overlap = dict(backend="threading", n1=rng2.choice([3, 4]), n2=2)    # (loky: overlapping calls with other executor arguments dead-lock, see 0.1 "observed outside the statements")
         yield dict(i=i, mask=m, thread_mask=tm, loky_max=e, backend=b, n_jobs_arith=list(range(-2 * cpus - 1, 2 * cpus + 2)),
-                   n_jobs_run=rng_run, nest=nest, phases=phases)
+                   n_jobs_run=rng_run, nest=nest, phases=phases, overlap_ctx=overlap)
 
 
 def high_water(rows):
@@ -133,6 +137,17 @@ def run_case(case, ctx):
             if hw >= 2 or want == 1:
                 ctx.sig((case["mask"], case["loky_max"], case["backend"], run["n"]))
             ctx.maxi("max_high_water", hw)
+        if o.get("overlap"):
+            ov = o["overlap"]
+            ctx.count("overlapping_calls_inside_one_context_block")
+            hw = high_water(ov["rows"])
+            d2 = dict(desc, overlap=dict(n1=ov["n1"], n2=ov["n2"], backend=ov["backend"]), high_water=hw)
+            if not ov["ok"] or len(ov["rows"]) != ov["N"]:
+                ctx.violation("wrong-result:overlapping-calls-in-one-context-block", f"the second call returned wrong results / {len(ov['rows'])} executions; {d2}", d2)
+            elif hw > ov["n2"]:
+                ctx.violation("concurrency-exceeds-n_jobs:overlapping-call-sharing-the-context-backend",
+                              f"{hw} tasks of a call with n_jobs={ov['n2']} ran simultaneously: inside parallel_config(backend={ov['backend']!r}) a generator call with n_jobs={ov['n1']} "
+                              f"was still alive and the two calls share the block's backend instance; {d2}", d2)
         if o["nest"]:
             ctx.count("nested_runs")
             if o["nest"]["cfg"].get("mid_style", "default") != "default":
